@@ -325,7 +325,63 @@ pub fn gen_scenario(g: &mut Xo, bias: Bias) -> VmSc {
         faults,
         limits,
         rebuild_at,
+        long: false,
     }
+}
+
+/// A long execution: `[exec.dup, [body.., exec.dup]]` re-creates its own block forever, so the run lasts
+/// until the step limit (1000..=LONG_CAP) or until a stack overflows. Bodies are seeded instruction
+/// sequences; some contain a very long string literal (> 64 KiB of output in one step) or several prints.
+pub fn gen_long(g: &mut Xo) -> VmSc {
+    let mut sc = gen_scenario(g, Bias::Balanced);
+    let sw = Swarm {
+        fam: {
+            let mut fam = [0u32; N_FAM];
+            for f in &mut fam {
+                *f = if g.chance(1, 3) { 0 } else { 1 + g.below(8) as u32 };
+            }
+            // no exec-growing families inside the body: the loop skeleton provides the repetition
+            fam[12] = 0;
+            fam[13] = 0;
+            if fam.iter().all(|x| *x == 0) {
+                fam[0] = 1;
+            }
+            fam
+        },
+        tys: [2, 1, 1, 0],
+        names: sc.init.inputs.clone(),
+        block_pct: 0,
+    };
+    let mut body: Vec<Prog> = (0..g.urange(1, 8)).map(|_| Prog::I(gen_ins(g, &sw, 0))).collect();
+    match g.below(6) {
+        0 => {
+            let n = 65_530 + g.urange(0, 5000);
+            body.insert(0, Prog::I(Ins::PrintString("x".repeat(n))));
+        }
+        1 | 2 => {
+            body.push(Prog::I(Ins::PushInt(gen_i64(g))));
+            body.push(Prog::I(Ins::PrintLn(Ty::Int)));
+            body.push(Prog::I(Ins::PrintString("abcdefghijklmnopqrstuvwxyz".repeat(g.urange(1, 4)))));
+        }
+        _ => {}
+    }
+    // no exec-flushing / exec-popping instruction may cut the loop short too often: keep what was drawn,
+    // the model follows either way
+    body.push(Prog::I(Ins::Dup(Ty::Exec)));
+    sc.init.program = vec![Prog::I(Ins::Dup(Ty::Exec)), Prog::B(body)];
+    sc.init.wrap = 0;
+    sc.init.caps.exec = g.urange(4, 64).max(sc.init.program.len() + 12);
+    for c in [&mut sc.init.caps.int, &mut sc.init.caps.float, &mut sc.init.caps.bool] {
+        if *c == usize::MAX {
+            *c = 64;
+        }
+    }
+    sc.init.limit = if g.chance(1, 4) { crate::vmsim::LONG_CAP } else { g.urange(1000, crate::vmsim::LONG_CAP) };
+    sc.faults.clear();
+    sc.limits.clear();
+    sc.rebuild_at = None;
+    sc.long = true;
+    sc
 }
 
 /// Shrink candidates shared by C01/C02/C03.
